@@ -25,7 +25,7 @@ class TLCResult:
         self.violated = re.findall(r"Invariant (\w+) is violated", out) + \
             re.findall(r"Action property (\w+) is violated", out)
         self.completed = "Model checking completed. No error has been found." in out
-        self.printed = [l for l in out.splitlines() if l.startswith("<<")]
+        self.printed = printed_tuples(out)
 
     def tuples(self, tag):
         """lines printed as <<"tag", ...>> -> list of python lists (ints / strings only)"""
@@ -34,6 +34,46 @@ class TLCResult:
             if l.startswith('<<"%s"' % tag):
                 res.append(parse_tla_tuple(l))
         return res
+
+
+def printed_tuples(out):
+    """every value TLC printed that starts with << at the beginning of a line, as ONE line each.  TLC pretty-prints
+    values longer than its line width over several lines (<< "REJ",\n   12,\n   "clause", ... >>): the text is
+    collected up to the matching >> (string literals skipped) and normalised to the single-line form <<"tag", ...>>."""
+    res, lines, i = [], out.splitlines(), 0
+    while i < len(lines):
+        l = lines[i]
+        if l.startswith("<<"):
+            buf, depth, j = "", 0, i
+            while j < len(lines):
+                seg = lines[j]
+                k, instr = 0, False
+                while k < len(seg):
+                    c = seg[k]
+                    if instr:
+                        if c == "\\":
+                            k += 1
+                        elif c == '"':
+                            instr = False
+                    elif c == '"':
+                        instr = True
+                    elif seg.startswith("<<", k):
+                        depth += 1
+                        k += 1
+                    elif seg.startswith(">>", k):
+                        depth -= 1
+                        k += 1
+                    k += 1
+                buf += (" " if buf else "") + seg.strip()
+                if depth <= 0:
+                    break
+                j += 1
+            buf = re.sub(r'^<<\s+', '<<', buf)
+            res.append(buf)
+            i = j + 1
+        else:
+            i += 1
+    return res
 
 
 def parse_tla_tuple(s):
